@@ -53,6 +53,24 @@ def _terminates(stmts):
     return False
 
 
+def _integer_valued(e, defs=None):
+    """expressions that are integers whatever the data: len(..), .shape[k], .ndim, .size, and the sum of a boolean mask
+    (.any()/.all()/.isna()/.notna()/comparison results)"""
+    if isinstance(e, ast.Call) and dotted(e.func) == "len":
+        return True
+    if isinstance(e, ast.Attribute) and e.attr in ("ndim", "size"):
+        return True
+    if isinstance(e, ast.Subscript) and isinstance(e.value, ast.Attribute) and e.value.attr == "shape":
+        return True
+    if isinstance(e, ast.Call) and isinstance(e.func, ast.Attribute) and e.func.attr == "sum" and not e.args and not e.keywords:
+        b = e.func.value
+        if isinstance(b, ast.Name) and defs and b.id in defs:
+            b = defs[b.id]
+        if isinstance(b, ast.Call) and isinstance(b.func, ast.Attribute) and b.func.attr in ("any", "all", "isna", "isnull", "notna", "notnull", "duplicated", "isin"):
+            return True
+    return False
+
+
 def _getattr_const(node):
     if isinstance(node, ast.Call) and isinstance(node.func, ast.Name) and node.func.id == "getattr" and len(node.args) == 2 and not node.keywords \
             and isinstance(node.args[1], ast.Constant) and isinstance(node.args[1].value, str) and node.args[1].value.isidentifier():
@@ -61,6 +79,18 @@ def _getattr_const(node):
 
 
 class _Expr(ast.NodeTransformer):
+    def __init__(self, fnode=None):
+        # single-assignment locals: name -> defining expression (to see through a temporary)
+        self.defs = {}
+        if fnode is not None:
+            count = {}
+            for n in ast.walk(fnode):
+                if isinstance(n, ast.Name) and isinstance(n.ctx, (ast.Store, ast.Del)):
+                    count[n.id] = count.get(n.id, 0) + 1
+            for n in ast.walk(fnode):
+                if isinstance(n, ast.Assign) and len(n.targets) == 1 and isinstance(n.targets[0], ast.Name) and count.get(n.targets[0].id) == 1:
+                    self.defs[n.targets[0].id] = n.value
+
     def visit_UnaryOp(self, node):
         self.generic_visit(node)
         if isinstance(node.op, ast.Not) and isinstance(node.operand, ast.Compare) and len(node.operand.ops) == 1:
@@ -92,7 +122,8 @@ class _Expr(ast.NodeTransformer):
             if isinstance(op, (ast.In, ast.NotIn)) and isinstance(c, (ast.List, ast.Set)) and all(isinstance(e, ast.Constant) for e in c.elts):
                 node.comparators[i] = ast.copy_location(ast.Tuple(elts=c.elts, ctx=ast.Load()), c)
         # len(x) < 1  /  len(x) <= 0  ->  len(x) == 0 ;  len(x) >= 1 -> len(x) > 0
-        if len(node.ops) == 1 and isinstance(node.left, ast.Call) and dotted(node.left.func) == "len" and isinstance(node.comparators[0], ast.Constant):
+        if len(node.ops) == 1 and _integer_valued(node.left, getattr(self, "defs", None)) and isinstance(node.comparators[0], ast.Constant) \
+                and isinstance(node.comparators[0].value, int) and not isinstance(node.comparators[0].value, bool):
             k, op = node.comparators[0].value, type(node.ops[0])
             if (op is ast.Lt and k == 1) or (op is ast.LtE and k == 0):
                 node.ops, node.comparators = [ast.Eq()], [ast.Constant(value=0)]
@@ -895,6 +926,38 @@ def _or_default(stmts):
     return out
 
 
+def _extend_to_concat(stmts):
+    """x = [..] ; x.extend(<comprehension / display>)   ->   x = [..] + [..]   (x is a fresh list both times)"""
+    out = []
+    i = 0
+    for s in stmts:
+        _recurse(s, _extend_to_concat)
+    while i < len(stmts):
+        s = stmts[i]
+        if i + 1 < len(stmts) and isinstance(s, ast.Assign) and len(s.targets) == 1 and isinstance(s.targets[0], ast.Name) \
+                and (isinstance(s.value, (ast.ListComp, ast.List)) or (isinstance(s.value, ast.BinOp) and isinstance(s.value.op, ast.Add))):
+            n = stmts[i + 1]
+            x = s.targets[0].id
+            if isinstance(n, ast.Expr) and isinstance(n.value, ast.Call) and isinstance(n.value.func, ast.Attribute) and n.value.func.attr == "extend" \
+                    and isinstance(n.value.func.value, ast.Name) and n.value.func.value.id == x and len(n.value.args) == 1 and not n.value.keywords:
+                e = n.value.args[0]
+                if isinstance(e, ast.GeneratorExp):
+                    e = ast.ListComp(elt=e.elt, generators=e.generators)
+                if isinstance(e, (ast.ListComp, ast.List)) and not any(isinstance(y, ast.Name) and y.id == x for y in ast.walk(e)) \
+                        and _is_list_expr(s.value):
+                    merged = ast.copy_location(ast.Assign(targets=s.targets, value=ast.BinOp(left=s.value, op=ast.Add(), right=e)), s)
+                    stmts = stmts[:i] + [merged] + stmts[i + 2:]
+                    continue
+        i += 1
+    return stmts
+
+
+def _is_list_expr(e):
+    if isinstance(e, (ast.ListComp, ast.List)):
+        return True
+    return isinstance(e, ast.BinOp) and isinstance(e.op, ast.Add) and _is_list_expr(e.left) and _is_list_expr(e.right)
+
+
 def _unreachable(stmts):
     out = []
     for s in stmts:
@@ -1298,13 +1361,14 @@ def _canon_once(fnode):
     f = copy.deepcopy(fnode)
     f.decorator_list = [d for d in f.decorator_list]
     _strip(f)
-    f = _Expr().visit(f)
+    f = _Expr(f).visit(f)
     f = _comp_vars(f)
     f.body = _unreachable(f.body)
     f.body = _or_default(f.body)
     f.body = _tuple_split(f.body)
     f.body = _try_rethrow(f.body)
     f.body = _aug_append(f.body)
+    f.body = _extend_to_concat(f.body)
     f.body = _while_true(f.body)
     f.body = _ifexp_to_stmt(f.body)
     f.body = _loop_to_comp(f.body)
@@ -1331,7 +1395,7 @@ def _canon_once(fnode):
         f.body = _push_return(f.body)
     f.body = _empty_arms(f.body)
     f.body = _positive_if(f.body)
-    f = _Expr().visit(f)
+    f = _Expr(f).visit(f)
     f = _order_commuting(f)
     f = _alpha(f)
     ast.fix_missing_locations(f)
